@@ -2,17 +2,23 @@
 (* C03 generator: layouts as behaviours (add one call at a time, then fix the   *)
 (* statement-level decorations).                                                *)
 EXTENDS Source, Json, IOUtils
-CONSTANTS MaxCalls
+CONSTANTS MaxCalls,
+          Mode      \* "wide": all decorations; "line": only the calls vary (operator, parameter, none/dot break),
+                    \*   exhaustively -- chains that share physical lines with interleaved operator names
 VARIABLES lay, done
 vars == <<lay, done>>
 Init == /\ lay = [calls |-> <<>>, wrap |-> "fn", extra |-> "none", pre |-> FALSE, kind |-> "lambda"]
         /\ done = FALSE
 AddCall == /\ ~done /\ Len(lay.calls) < MaxCalls
-           /\ \E op \in Ops, p \in Params, b \in Breaks, d \in Decos :
+           /\ \E op \in Ops, p \in Params, b \in (IF Mode = "line" THEN {"none", "dot"} ELSE Breaks),
+                 d \in (IF Mode = "line" THEN {"none"} ELSE Decos) :
                  lay' = [lay EXCEPT !.calls = Append(lay.calls, CallRec(op, p, b, d))]
            /\ UNCHANGED done
 Finish == /\ ~done /\ Len(lay.calls) >= 1
-          /\ \E w \in Wraps, ex \in Extras, pr \in BOOLEAN, kd \in {"lambda", "def"} :
+          /\ \E w \in (IF Mode = "line" THEN {"fn", "cond"} ELSE Wraps),
+                ex \in (IF Mode = "line" THEN {"none"} ELSE Extras),
+                pr \in (IF Mode = "line" THEN {FALSE} ELSE BOOLEAN),
+                kd \in (IF Mode = "line" THEN {"lambda"} ELSE {"lambda", "def"}) :
                 lay' = [lay EXCEPT !.wrap = w, !.extra = ex, !.pre = pr, !.kind = kd]
           /\ done' = TRUE
 Next == AddCall \/ Finish
